@@ -855,6 +855,7 @@ package core
 //@ func (*registrationServiceImpl).Clear
 //@   modifies s.runtime, s.state, s.cancelOnce, s.externalAgents.byName, s.externalAgents.byID, s.internalAgents.byName, s.internalAgents.byID
 //@   ensures [like-new] s.runtime == nil && s.state == registrationServiceOn && (forall k string :: !has(s.externalAgents.byName, k) && !has(s.externalAgents.byID, k) && !has(s.internalAgents.byName, k) && !has(s.internalAgents.byID, k)) && len(s.externalAgents.byName) == 0 && len(s.internalAgents.byName) == 0
+//@   ensures [cancellation-re-armed] s.cancelOnce == zero(sync.Once)
 //@ func NewRegistrationService
 //@   requires isInitFlow(initFlow) && isInvokeFlow(invokeFlow) && flowsDisjoint(initFlow.(*initFlowSynchronizationImpl), invokeFlow.(*invokeFlowSynchronizationImpl))
 //@   modifies nothing
